@@ -308,6 +308,48 @@ This decides `no new unaudited panic/recursion/loop site`, the enumerated necess
             }
         }
     }
+    // C08.entry: a cycle whose depth is NOT bounded by a visited set or by input nesting (class baseline / finding:
+    // reference chasers) is only as safe as the callers that hand it a reference; every caller from outside the
+    // cycle is therefore part of the audit (`callers`), and a new way into such a cycle is reported.
+    let name_of = |i: usize| format!("{}::{}", facts.bodies[i].krate, owner_of(&facts.bodies[i].path));
+    let mut entry_edges = 0;
+    let mut entry_dump = serde_json::Map::new();
+    for comp in &sccs {
+        let cset: BTreeSet<usize> = comp.iter().cloned().collect();
+        let cnames: BTreeSet<String> = comp.iter().map(|i| name_of(*i)).collect();
+        for n in &cnames {
+            let Some(e) = rec_table.get(n) else { continue };
+            let class = e["class"].as_str().unwrap_or("");
+            if class != "baseline" && !(class == "finding" && e.get("callers").is_some()) {
+                continue;
+            }
+            let mut callers: BTreeMap<String, usize> = BTreeMap::new();
+            for j in reach.iter() {
+                if cset.contains(j) || cnames.contains(&name_of(*j)) {
+                    continue;
+                }
+                if facts.edges[*j].iter().any(|t| cset.contains(t) && name_of(*t) == *n) {
+                    callers.entry(name_of(*j)).or_insert(*j);
+                }
+            }
+            let allowed: BTreeSet<String> = e["callers"].as_array().map(|a| a.iter().filter_map(|x| x.as_str().map(String::from)).collect()).unwrap_or_default();
+            entry_dump.insert(n.clone(), json!(callers.keys().collect::<Vec<_>>()));
+            for (c, j) in &callers {
+                entry_edges += 1;
+                let ok = allowed.contains(c);
+                ctx.oblige("C08.entry", &format!("{}<-{}", n, c), true);
+                if !ok {
+                    ctx.violate("C08.entry", &format!("new-entry:{}<-{}", n, c), &facts.bodies[*j].file, facts.bodies[*j].line,
+                        &format!("`{}` now calls `{}`, a recursion over references with no visited set / depth bound (audit class {}): a reference cycle in the input reaching this call recurses until the stack is exhausted; the audited callers are [{}]",
+                            c, n, class, allowed.iter().cloned().collect::<Vec<_>>().join(", ")));
+                }
+            }
+        }
+    }
+    ctx.extra.insert("unbounded_cycle_entry_edges".into(), json!(entry_edges));
+    if std::env::var("ASNLINT_DUMP_ENTRY").is_ok() {
+        println!("{}", serde_json::to_string_pretty(&Value::Object(entry_dump)).unwrap());
+    }
     ctx.extra.insert("recursive_cycles".into(), json!(sccs.len()));
     ctx.extra.insert("recursive_fns".into(), json!(scc_members));
     if std::env::var("ASNLINT_DUMP_REC").is_ok() {
